@@ -65,6 +65,24 @@ CLAIMED.update({
             "Config::new / ClientConfig::new run on permutations of flag-group subsets (long/short spellings, invalid values, unknown flags, dangling flags, help) and are compared with the model and with an independent last-occurrence evaluator.", "5/C17",
             "Lean 4 proof (fold over flag groups, last-occurrence characterisation) + permutation correspondence on both parsers"),
 })
+CLAIMED.update({
+    "C04": ("Open system, every arrival history: c04_sender_abort_only_after_budget / c04_receiver_abort_only_after_budget (the only ways to fail), c04_timeout_resends_window, c04_progress_renews_budget, "
+            "c04_reack_on_retransmission, c04_accept_renews_budget, c04_six_le_budget. Closed system: the general claim (fewer than 6 losses => byte-identical copy) is NOT proved (c04_closed_loop_partial is a "
+            "small anchor); it is enumerated: the real Worker::send and Worker::receive run in an in-memory FIFO closed loop for every single fault at every position (w 1..4), sampled pairs, random schedules "
+            "with up to 5 losses, and must agree with the Lean simulator on outcome, datagram counts and number of time-outs. Partial: real timer skew, reordering in the closed loop.", "5/C04",
+            "Lean 4 open-system theorems + exhaustive single-fault enumeration in a real-worker closed loop diffed against the Lean simulator"),
+    "C12": ("c12_routing, c12_frame, c12_commute, c12_projection (for every interleaving each transfer's state and output equal its solo run on its own datagrams — for any per-transfer step function), "
+            "c12_foreign_nonrequest_gets_error; K scripted clients (downloads, uploads, intruders) interleaved under all/sampled schedules against the in-process server in both port modes, compared per client with the "
+            "solo prediction, source-port class included. Partial by nature: thread scheduling, mpsc and socket thread-safety are runtime; same-target uploads are C13.", "5/C12",
+            "Lean 4 proof over keyed product of transfers + interleaved multi-client runs against the in-process server"),
+    "C13": ("c13_failed_upload (removed if clean-on-error, else a prefix of the bytes received), c13_completed_upload for every reachable receiver state; the second half of the property is false of the code: "
+            "c13_stale_cleanup_witness is a kernel-checked history, replayed on two real workers on every run and listed as a known finding (D6); abort at every kind of point x cause x {clean, keep} x windowsize on the real Worker::receive.", "5/C13",
+            "Lean 4 proof (single owner) + kernel-checked counter-example replayed on the implementation (known finding)"),
+    "C14": ("c14_client_request, c14_client_adopts_oack, c14_download_target, c14_refusal_creates_nothing, c14_upload_plain_ack_defaults for the client glue; the transfer itself is the closed loop of C04 "
+            "(fault-free runs of the real sender against the real receiver over sizes x blksize x windowsize x repeat, diffed against the Lean simulator) plus the real tftpc against the real tftpd "
+            "(download/upload x port modes x IPv4/IPv6 x option choices x path forms x refusal). Partial: kernel socket buffers and real timers; the closed-loop completion theorem is not proved in general.", "5/C14",
+            "Lean 4 theorems on client glue + real-worker closed loop vs simulator + real binaries on loopback"),
+})
 PENDING = {}
 
 def main():
